@@ -36,10 +36,14 @@ type Opts struct {
 	HashLen       int
 	MaxBytes      int64 // consensus param block.max_bytes (0 = default)
 	EvidenceAge   int64 // max age num blocks (0 = default)
-	PartSize      uint32
-	App           *simapp.RecApp // nil = new
-	EvPool        sm.EvidencePool
-	Logger        log.Logger
+	// EvidenceDuration is the evidence max age duration (0 = default); EvidenceMaxBytes the
+	// evidence.max_bytes consensus parameter (0 = default).
+	EvidenceDuration time.Duration
+	EvidenceMaxBytes int64
+	PartSize         uint32
+	App              *simapp.RecApp // nil = new
+	EvPool           sm.EvidencePool
+	Logger           log.Logger
 }
 
 // Key returns the deterministic private key number i.
@@ -61,7 +65,7 @@ type Chain struct {
 	BlockStore *store.BlockStore
 	StateStore sm.Store
 	Exec       *sm.BlockExecutor
-	State      sm.State // state after the last block
+	State      sm.State                  // state after the last block
 	Keys       map[string]crypto.PrivKey // address (string(bytes)) -> key
 	NKeys      int
 
@@ -104,6 +108,12 @@ func New(o Opts) *Chain {
 	}
 	if o.EvidenceAge > 0 {
 		gd.ConsensusParams.Evidence.MaxAgeNumBlocks = o.EvidenceAge
+	}
+	if o.EvidenceDuration > 0 {
+		gd.ConsensusParams.Evidence.MaxAgeDuration = o.EvidenceDuration
+	}
+	if o.EvidenceMaxBytes > 0 {
+		gd.ConsensusParams.Evidence.MaxBytes = o.EvidenceMaxBytes
 	}
 	for i, p := range o.Powers {
 		k := c.key(i)
